@@ -56,6 +56,8 @@ structure Cfg where
   nodeShallow : List String
   svcGetters : List String
   svcShallow : List String
+  /-- constrained service properties whose (non-string) value class defines `__len__`/`__bool__` -/
+  svcFalsyCapable : List String
   nodesViewExcludes : List String
   guardPairs : List (String × String)
   ctorRunsGuardrails : Bool
@@ -90,9 +92,13 @@ def SIface.rename (f : String → String) : SIface → SIface
 structure Svc where
   ty : String
   site : Option String
+  /-- properties (other than `site`) that are set: a non-empty string or any object -/
   props : List String
   owner : Option String
   ifs : List SIface
+  /-- those of `props` whose value is an object without content (an ERO that refers to a graph or has no
+  payload): still set, but falsy if its class defines `__len__`/`__bool__` -/
+  hollow : List String
   deriving Repr
 
 /-- the name-keyed view `NetworkService.interfaces` (a dict: one entry per distinct name) -/
@@ -198,10 +204,15 @@ def nstypeConstraints (exp : Bool) (row : SvcRow) (s : Svc) (nifs : List NIface)
           else (.ok (), some x)
         | _ => if truthy s.site then (.error .topology, s.site) else (.ok (), s.site)
 
+/-- Python truthiness of the value of a property that is set: false only for an object without content
+whose class can be falsy. (`validate_constraints` tests `if [not] sliver.get_property(p)`.) -/
+def valueTruthy (c : Cfg) (s : Svc) (p : String) : Bool :=
+  s.props.contains p && !(s.hollow.contains p && c.svcFalsyCapable.contains p)
+
 /-- `ns_sliver.get_property(p)` truthiness; no getter is an `AttributeError` -/
 def svcSees (c : Cfg) (s : Svc) (site : Option String) (p : String) : Except Err Bool :=
   if c.svcGetters.contains p then
-    .ok (c.svcShallow.contains p && (if p == "site" then truthy site else s.props.contains p))
+    .ok (c.svcShallow.contains p && (if p == "site" then truthy site else valueTruthy c s p))
   else .error .attribute
 
 def checkReq (c : Cfg) (s : Svc) (site : Option String) : List String → Res
@@ -324,6 +335,7 @@ def genCfg : Cfg :=
   { svc := Gen.Constraints.svcRows, node := Gen.Constraints.nodeRows,
     nodeGetters := Gen.Constraints.nodeGetters, nodeShallow := Gen.Constraints.nodeShallow,
     svcGetters := Gen.Constraints.svcGetters, svcShallow := Gen.Constraints.svcShallow,
+    svcFalsyCapable := Gen.Constraints.svcFalsyCapable,
     nodesViewExcludes := Gen.Constraints.nodesViewExcludes, guardPairs := Gen.Constraints.guardPairs,
     ctorRunsGuardrails := Gen.Constraints.ctorRunsGuardrails,
     connectRunsGuardrails := Gen.Constraints.connectRunsGuardrails }
